@@ -38,7 +38,7 @@ func (w *WaterMark) Init(closer *Closer) {
 	const defaultCap = 128
 	w.waiters = make(map[uint64]chan struct{}, defaultCap)
 	w.window.Store(&watermarkWindow{
-		base:  1,
+		base:  0,
 		slots: make([]atomic.Int32, defaultWatermarkWindow),
 	})
 	// Legacy closers expected each watermark processor to call Done once.
@@ -138,9 +138,8 @@ func (w *WaterMark) WaitForMark(ctx context.Context, index uint64) error {
 }
 
 func (w *WaterMark) addIndex(index uint64, delta int32) {
-	if index == 0 {
-		return
-	}
+	// Index 0 is counted like any other index: a transaction started before the
+	// first commit reads at timestamp 0 and must hold the mark back as well.
 	win := w.ensureWindow(index)
 	offset := index - win.base
 	if offset < uint64(len(win.slots)) {
@@ -174,6 +173,12 @@ func (w *WaterMark) tryAdvance() {
 		if next < win.base || next >= win.base+uint64(len(win.slots)) {
 			w.ensureWindow(next)
 			continue
+		}
+		// An index equal to doneUntil can be begun again (the oracle hands out the same
+		// read timestamp until the next commit). It must hold the mark until it is done,
+		// otherwise doneUntil moves past an index that is still pending.
+		if doneUntil >= win.base && win.slots[doneUntil-win.base].Load() > 0 {
+			return
 		}
 		offset := next - win.base
 		if win.slots[offset].Load() > 0 {
@@ -220,7 +225,8 @@ func (w *WaterMark) ensureWindow(index uint64) *watermarkWindow {
 // rebuildWindowLocked resizes the window; caller must hold w.mu.
 func (w *WaterMark) rebuildWindowLocked(index uint64, win *watermarkWindow) {
 	done := w.DoneUntil()
-	newBase := done + 1
+	// Keep the slot of doneUntil itself: it may have been begun again.
+	newBase := done
 	if index < newBase {
 		index = newBase
 	}
@@ -257,7 +263,7 @@ func (w *WaterMark) rebuildWindowLocked(index uint64, win *watermarkWindow) {
 func (w *WaterMark) loadWindow() *watermarkWindow {
 	if w.window.Load() == nil {
 		win := &watermarkWindow{
-			base:  1,
+			base:  0,
 			slots: make([]atomic.Int32, defaultWatermarkWindow),
 		}
 		w.window.Store(win)
